@@ -8,6 +8,7 @@ import (
 	"go/ast"
 	"go/token"
 	"go/types"
+	"sort"
 	"strconv"
 	"strings"
 	"text/template/parse"
@@ -65,13 +66,31 @@ func Extract(prog *load.Program) (*Source, error) {
 			return true
 		})
 	}
-	if len(parseArgs) != 1 || parseArgs[0] == nil || len(funcsArgs) != 1 {
-		return nil, fmt.Errorf("template role not found: expected exactly one Parse(text) and one Funcs(map) call on text/template in %s and no other template-building API (found %d Parse/other, %d Funcs)", load.PkgTemplate, len(parseArgs), len(funcsArgs))
+	hasNil := false
+	for _, a := range parseArgs {
+		if a == nil {
+			hasNil = true
+		}
 	}
+	if len(parseArgs) < 1 || hasNil || len(funcsArgs) != 1 {
+		return nil, fmt.Errorf("template role not found: expected Parse(text) calls and one Funcs(map) call on text/template in %s and no other template-building API (found %d Parse/other, %d Funcs)", load.PkgTemplate, len(parseArgs), len(funcsArgs))
+	}
+	// several Parse calls (in source order): the first gives the body, the later ones may only add {{define}}
+	// blocks — text/template keeps an existing body when a later text has none (checked below)
+	sort.Slice(parseArgs, func(i, j int) bool { return parseArgs[i].Pos() < parseArgs[j].Pos() })
 	tv, err := globalVar(pk.TypesInfo, parseArgs[0])
 	if err != nil {
 		return nil, fmt.Errorf("template text: %v", err)
 	}
+	var moreVars []*types.Var
+	for _, a := range parseArgs[1:] {
+		v, err := globalVar(pk.TypesInfo, a)
+		if err != nil {
+			return nil, fmt.Errorf("template text (further Parse call): %v", err)
+		}
+		moreVars = append(moreVars, v)
+	}
+	morePieces := map[*types.Var][]Piece{}
 	fv, err := globalVar(pk.TypesInfo, funcsArgs[0])
 	if err != nil {
 		return nil, fmt.Errorf("template funcs: %v", err)
@@ -89,6 +108,15 @@ func Extract(prog *load.Program) (*Source, error) {
 				for i, n := range vs.Names {
 					if len(vs.Values) != len(vs.Names) {
 						continue
+					}
+					for _, mv := range moreVars {
+						if info.Defs[n] == types.Object(mv) {
+							pieces, err := flattenText(prog, info, vs.Values[i], 0)
+							if err != nil || len(pieces) == 0 {
+								return nil, fmt.Errorf("template text %s is not initialised by string literals: %v", n.Name, err)
+							}
+							morePieces[mv] = pieces
+						}
 					}
 					switch info.Defs[n] {
 					case tv:
@@ -139,6 +167,42 @@ func Extract(prog *load.Program) (*Source, error) {
 	}
 	if src.Lit == nil {
 		return nil, fmt.Errorf("initialiser of template text variable %s not found", tv.Name())
+	}
+	if len(moreVars) > 0 {
+		first := src.Text
+		for _, mv := range moreVars {
+			ps, ok := morePieces[mv]
+			if !ok {
+				return nil, fmt.Errorf("initialiser of template text variable %s not found", mv.Name())
+			}
+			// a later text must leave the body alone: parsed on its own its top level is white space only
+			txt := ""
+			for _, p := range ps {
+				txt += p.text
+			}
+			t, _, perr := parseTemplate(txt, src.Funcs)
+			if perr != nil {
+				return nil, fmt.Errorf("template text %s does not parse: %v", mv.Name(), perr)
+			}
+			if t != nil && t.Root != nil {
+				for _, nd := range t.Root.Nodes {
+					if tn, ok := nd.(*parse.TextNode); !ok || strings.TrimSpace(string(tn.Text)) != "" {
+						return nil, fmt.Errorf("template text %s, parsed after the main text, has a body of its own: it would replace the body analysed here", mv.Name())
+					}
+				}
+			}
+			for k := range ps {
+				ps[k].Off = len(src.Text)
+				src.Text += ps[k].text
+			}
+			src.Pieces = append(src.Pieces, ps...)
+		}
+		// the concatenation is analysed as one text: its body must be the first text's body
+		t1, _, err1 := parseTemplate(first, src.Funcs)
+		t2, _, err2 := parseTemplate(src.Text, src.Funcs)
+		if err1 != nil || err2 != nil || t1 == nil || t2 == nil || strings.TrimSpace(t1.Root.String()) != strings.TrimSpace(t2.Root.String()) {
+			return nil, fmt.Errorf("the template texts handed to successive Parse calls do not combine into the body of the first one")
+		}
 	}
 	// T-1a: neither variable is assigned anywhere else in moq's packages.
 	for _, mp := range prog.MoqPackages() {
